@@ -195,6 +195,9 @@ def gen_scenarios(spec, rng, n):
             client = "rest"
         from ..rng import deep
         nact = 1 if client != "async" else rng.choice([1, 2, 3, 4, 5] if deep() else [1, 2, 2, 3])
+        threads = client != "async" and rng.random() < 0.2     # REAL caller threads sharing one sync/REST client
+        if threads:
+            nact = rng.choice([2, 2, 3])
         actors = [{"start": 0.0 if a == 0 else round(rng.choice([0.0, 0.004, 0.02]), 3), "ops": []} for a in range(nact)]
         nops = rng.randint(1, 3) if nact == 1 else nact + rng.randint(0, 1)
         seq = 0
@@ -231,6 +234,9 @@ def gen_scenarios(spec, rng, n):
                 else:
                     a["ops"].append(op2)
         sc = {"client": client, "actors": [a for a in actors if a["ops"]], "jitter_default": 0.0}
+        if threads and len(sc["actors"]) > 1:
+            sc["threads"] = True
+            sc["sched_seed"] = rng.randrange(2 ** 32)
         if client == "async" and rng.random() < 0.15:
             sc["cancels"] = [{"actor": rng.randrange(len(sc["actors"])), "at": round(rng.choice([0.001, 0.01, 0.03, 0.08]), 3)}]
         out.append(sc)
